@@ -100,6 +100,8 @@ def eval_prop(pid, extra, theorems, expl):
                 trusted=EVAL_TRUST, assumptions=EVAL_ASSUME, explanation=expl)
 
 PROPS["C11"]["proof_files"] = REFINE_FILES + ["props/C11.v"]
+PROPS["C03"]["proof_files"] = REFINE_FILES + ["props/C03.v"]
+PROPS["C03"]["theorems"] = ["C03", "C03_semantic"]
 PROPS["C01"] = eval_prop("C01", ["proofs/AnchorsSitesMemo.v"], ["C01", "C01_flat", "C01_hypothesis_needed"],
     "C01 is proved for the engine model WITH its working memory started from arbitrary memory contents, for every budget, flag, cancellation point and "
     "map order: engine_refines_spec (the memoising run equals the run that evaluates everything from scratch) + state tracking of the from-scratch run "
